@@ -149,7 +149,7 @@ def check_c12(tier, replay=None):
                 add(s, "six-field FEN rendered by the specification, clock magnitudes up to 10^30")
                 valid.append(s)
             add("%s %s %s" % (f4, rng.choice(CLOCKS), rng.choice(CLOCKS)), "clock fields incl. leading zeros, signs, non-ASCII digits")
-        for _ in range(40000 if T else 3500):
+        for _ in range(120000 if T else 3500):
             add(mutate(rng, rng.choice(valid)), "single-fault mutation of a valid FEN")
         for _ in range(10000 if T else 600):
             k = rng.randrange(4)
@@ -556,7 +556,7 @@ def check_c17(tier, replay=None):
         sched = [(c["chunk"], c["frag"])]
     else:
         specs = []
-        for _ in range(400 if T else 36):
+        for _ in range(1200 if T else 36):
             games = []
             for _ in range(rng.choice([1, 1, 2, 3, 4])):
                 fen = rng.choice([START_FEN, START_FEN] + CASTLE_FENS)
